@@ -131,7 +131,10 @@ let check which line =
   | _, None -> verdict false ("outcome:" ^ (if String.length obs > 60 then String.sub obs 0 60 else obs))
   | Ok p, Some s ->
     (match which with
-     | "c03" -> verdict (c03_sb p.cfg (nat_of_int p.threads) p.init p.hist s) "C03:counts-not-as-fixed-by-(n,s,T)"
+     | "c03" ->
+       if not (c03_sb p.cfg (nat_of_int p.threads) p.init p.hist s) then verdict false "C03:counts-not-as-fixed-by-(n,s,T)"
+       else verdict (c03_tuned_sb p.cfg (nat_of_int p.threads) p.init p.hist s)
+           "C03:tuned-run-not-(first-passing-round+ceil(n/T))-rounds/T*ceil(n/T)-samples"
      | "c04" -> verdict (c04_sb p.cfg p.init p.hist s) "C04:rounds-not-the-least-k-of-the-rule"
      | "c19" -> verdict (c19_sb p.cfg p.init p.hist s) "C19:tuning-sequence/discard-rule"
      | _ -> failwith "check")
